@@ -1857,6 +1857,38 @@ Section S2.
         injection He as <-. cbn [key_of] in Hm. now rewrite Hn in Hm.
   Qed.
 
+  Lemma rank_dom r : In r (map fst ex) -> rnk r < wf_fuel wf.
+  Proof.
+    intros Hr. destruct Hex as [_ [_ [X2 _]]]. destruct (X2 r Hr) as [Hs | Ho].
+    - rewrite (rank_src r Hs). unfold wf_fuel. lia.
+    - destruct (out_app wf Hwf r Ho) as [a [Ha [Eo _]]].
+      destruct (app_parts wf Hwf a Ha) as [_ [Hle _]]. rewrite Eo in Hle.
+      unfold rnk, wf_fuel. lia.
+  Qed.
+
+  (* the all-resources pass of the repaired code (for wfnode in exprs: wfnode2tfmnode(wfnode)):
+     resources not visited so far (e.g. sources nobody uses) get their nodes now *)
+  Lemma result_map_t_okW : forall tab X st T,
+    WS X st T -> (forall r, In r (map fst tab) -> In r (map fst ex)) ->
+    exists l st' T', result_map_t add_from false wf ex (wf_fuel wf) tab st = Some (l, st') /\
+      WS X st' T' /\ incl T T' /\ mpres (g_memo st) (g_memo st') /\
+      (forall r, In r (map fst tab) -> In r (map fst T')).
+  Proof.
+    induction tab as [|[r e] tab IH]; intros X st T W Hd; cbn [result_map_t].
+    - exists [], st, T. split; [reflexivity|]. split; [exact W|]. split; [apply incl_refl|].
+      split; [apply mpres_refl | intros r []].
+    - assert (Hr : In r (map fst ex)) by (apply Hd; cbn; auto).
+      destruct (w2t_ok (wf_fuel wf) X r st T W Hr (rank_dom r Hr))
+        as [n [st1 [T1 [Ew [W1 [[L [HL _]] [Hi1 [_ [Hp1 _]]]]]]]]].
+      rewrite Ew.
+      destruct (IH X st1 T1 W1) as [l [st2 [T2 [El [W2 [Hi2 [Hp2 Hin2]]]]]]].
+      { intros r' Hr'. apply Hd. cbn. auto. }
+      rewrite El. exists ((r, n) :: l), st2, T2. split; [reflexivity|]. split; [exact W2|].
+      split; [eapply incl_tran; eauto|]. split; [eapply mpres_trans; eauto|].
+      intros r' [<- | Hr']; [|now apply Hin2].
+      apply in_map_iff. exists (r, L). split; [reflexivity | apply Hi2, HL].
+  Qed.
+
   Lemma result_map_ok m : forall tab,
     (forall r e, In (r, e) tab -> exists n, memo_find (key_of e) m = Some n) ->
     exists l, result_map tab m = Some l /\ map fst l = map fst tab /\
@@ -1997,14 +2029,18 @@ Proof.
   destruct (w2t_ok add_from Hok wf pt Hwf ex Hex (wf_fuel wf) [] tg g_empty [] W0
               (elookup_dom _ _ _ Hltg) Hrk)
     as [res0 [st1 [T1 [Et [W1 [[Ltg [HLtg Hres0]] _]]]]]].
-  assert (Hall1 : forall a, In a apps -> In (a_out a) (map fst T1)).
-  { apply (all_outs_in_T wf pt Hwf ex [] st1 T1 tg W1 Htg).
+  (* the all-resources pass *)
+  destruct (result_map_t_okW add_from Hok wf pt Hwf ex Hex ex [] st1 T1 W1 (fun r H => H))
+    as [l1 [st1p [T1p [Epass [W1p [Hi1p _]]]]]].
+  apply Hi1p in HLtg.
+  assert (Hall1 : forall a, In a apps -> In (a_out a) (map fst T1p)).
+  { apply (all_outs_in_T wf pt Hwf ex [] st1p T1p tg W1p Htg).
     apply in_map_iff. exists (tg, Ltg). auto. }
   assert (Hlook : forall X st T r, WS wf pt ex X st T -> In r (map fst T) ->
             exists e n, elookup r ex = Some e /\ memo_find (key_of e) (g_memo st) = Some n).
   { intros X st T r W HT. apply in_map_iff in HT. destruct HT as [[r0 L] [E HT]]. cbn in E. subst r0.
     destruct (s_memo _ _ _ _ _ _ W r L HT) as [e [He Hm]]. eauto. }
-  destruct (indir_ok add_from add_from_r Hokr wf pt ex (e_ind E1) [] st1 T1 W1)
+  destruct (indir_ok add_from add_from_r Hokr wf pt ex (e_ind E1) [] st1p T1p W1p)
     as [st2 [X2 [Ei [W2 [Hp2 [HX2 Hall2]]]]]].
   { intros id e Hin. apply Hind in Hin. destruct Hin as [_ [a [k [q [Hd [Ha [Hk [Hq [Hi He]]]]]]]]].
     exists a, q. split; [exact Ha|]. split; [apply Hall1, Ha|]. split.
@@ -2013,7 +2049,7 @@ Proof.
       destruct (app_parts wf Hwf a Ha) as [Hins _]. destruct (Hins q (nth_error_In _ _ Hk)) as [[F | Ho] _];
         [contradiction|].
       destruct (out_app wf Hwf q Ho) as [aq [Haq [Eoq _]]]. rewrite <- Eoq. apply Hall1, Haq. }
-  destruct (inputs_ok add_from Hok wf pt Hwf ex Hex srcs X2 st2 T1 W2 (fun s H => H))
+  destruct (inputs_ok add_from Hok wf pt Hwf ex Hex srcs X2 st2 T1p W2 (fun s H => H))
     as [ins [st3 [T3 [El [W3 [Hi3 [Hp3 [Hs3 Hf3]]]]]]]].
   destruct Hex as [X0 [X1 [X2' X3]]].
   assert (HdomT3 : forall r, In r (map fst T3) <-> In r srcs \/ In r (outs wf)).
@@ -2031,10 +2067,9 @@ Proof.
     { apply HdomT3, Hdomex. apply in_map_iff. exists (r, e). auto. }
     destruct (Hlook _ _ _ r W3 HT) as [e' [n [He' Hn]]].
     rewrite (In_elookup r e ex X0 Hin) in He'. injection He' as <-. eauto. }
-  unfold add_workflow. fold srcs. fold E0. rewrite Htg, Ew. fold ex. rewrite Et, Ei. fold srcs.
-  rewrite El.
-  rewrite (result_map_t_hit add_from false wf ex (wf_fuel wf) st3 ex m
-             (fun r e Hin => In_elookup r e ex X0 Hin) Em).
+  unfold add_workflow. fold srcs. fold E0. rewrite Htg, Ew. fold ex. rewrite Et, Epass.
+  cbn [option_map snd]. rewrite Ei. fold srcs.
+  rewrite El, Em.
   set (res := mkRes (g_tr st3) ins res0 m).
   assert (Hndm : NoDup (map fst m)) by (rewrite Hmf; exact X0).
   assert (Hrho : forall r e n, elookup r ex = Some e -> memo_find (key_of e) (g_memo st3) = Some n ->
